@@ -131,7 +131,9 @@ func childWorld(args []string) int {
 			gen := strings.HasPrefix(base, BaseName+".")
 			if f.Doc != nil && len(f.Doc.List) > 0 {
 				tags, _ := gengotypes.ExtractCommentTags(strings.Split(f.Doc.Text(), "\n"))
-				wp.FileTags = append(wp.FileTags, WFileTags{File: base, Tags: joinTags(tags)})
+				if len(tags) > 0 { // a doc comment without tags contributes nothing to pkgTags
+					wp.FileTags = append(wp.FileTags, WFileTags{File: base, Tags: joinTags(tags)})
+				}
 			}
 			// the definitions: every identifier that defines an object (this is TypesInfo.Defs seen through the AST)
 			ast.Inspect(f, func(n ast.Node) bool {
